@@ -495,6 +495,18 @@ func getRecordWrapper(numFound int, keys [][]byte, pointers []interface{}) (reco
 	return records, nil
 }
 
+// isDeadRecord reports whether the pointer is a record that is deleted or expired. Such records
+// stay in the tree until they are overwritten; they are not results of a scan, so they must not
+// count against its offset or limit.
+func isDeadRecord(pointer interface{}) bool {
+	r, ok := pointer.(*Record)
+	if !ok || r == nil || r.H == nil || r.H.meta == nil {
+		return false
+	}
+
+	return r.H.meta.Flag == DataDeleteFlag || r.IsExpired()
+}
+
 // PrefixScan returns records at the given prefix and limitNum
 // limitNum: limit the number of the scanned records return.
 func (t *BPTree) PrefixScan(prefix []byte, offsetNum int, limitNum int) (records Records, off int, err error) {
@@ -527,6 +539,10 @@ func (t *BPTree) PrefixScan(prefix []byte, offsetNum int, limitNum int) (records
 			if !bytes.HasPrefix(n.Keys[i], prefix) {
 				scanFlag = false
 				break
+			}
+
+			if isDeadRecord(n.pointers[i]) {
+				continue
 			}
 
 			if coff < offsetNum {
@@ -591,6 +607,10 @@ func (t *BPTree) PrefixSearchScan(prefix []byte, reg string, offsetNum int, limi
 			if !bytes.HasPrefix(n.Keys[i], prefix) {
 				scanFlag = false
 				break
+			}
+
+			if isDeadRecord(n.pointers[i]) {
+				continue
 			}
 
 			if coff < offsetNum {
